@@ -205,13 +205,15 @@ theorem external_refutes_spec (t : ExternalTask) (S : Specification) (hspec : t.
           (∀ a ∈ rightSide t ΓR, a.role = .assumption → sat J a.formula ρ) ∧
           (((t.direction = .universal ∨ t.direction = .forward) ∧
               (∀ a ∈ S, lFwdPrem a = true → sat J a.formula ρ) ∧
-              ¬ Stable t.program t.userGuide.inputs
-                (restrictTo (ext t.program.preds t.userGuide.inputs)
-                  (renamedInterp (t.specPrivate.filter (· ∈ t.progPrivate)) J.pred)) J.fc) ∨
-           ((t.direction = .universal ∨ t.direction = .backward) ∧
-              Stable t.program t.userGuide.inputs
+              ¬ (Stable t.program t.userGuide.inputs
                 (restrictTo (ext t.program.preds t.userGuide.inputs)
                   (renamedInterp (t.specPrivate.filter (· ∈ t.progPrivate)) J.pred)) J.fc ∧
+                OutputsEmpty t t.program (renamedInterp (t.specPrivate.filter (· ∈ t.progPrivate)) J.pred))) ∨
+           ((t.direction = .universal ∨ t.direction = .backward) ∧
+              (Stable t.program t.userGuide.inputs
+                (restrictTo (ext t.program.preds t.userGuide.inputs)
+                  (renamedInterp (t.specPrivate.filter (· ∈ t.progPrivate)) J.pred)) J.fc ∧
+                OutputsEmpty t t.program (renamedInterp (t.specPrivate.filter (· ∈ t.progPrivate)) J.pred)) ∧
               ∃ a ∈ S, lBwdConc a = true ∧ ¬ sat J a.formula ρ)))) := by
   obtain ⟨hpre, ΓR, hR, hps⟩ := externalProblems_spec t S hspec hph hpo fuel ps h
   refine ⟨ΓR, hR, fun hnc J ρ => ?_⟩
@@ -223,7 +225,8 @@ theorem external_refutes_spec (t : ExternalTask) (S : Specification) (hspec : t.
   have huR := rightSide_univ t ΓR
   have hStR : (∀ a ∈ rightSide t ΓR, sat J a.formula ρ) ↔
       Stable t.program t.userGuide.inputs (restrictTo (ext t.program.preds t.userGuide.inputs)
-        (renamedInterp (t.specPrivate.filter (· ∈ t.progPrivate)) J.pred)) J.fc := by
+        (renamedInterp (t.specPrivate.filter (· ∈ t.progPrivate)) J.pred)) J.fc ∧
+      OutputsEmpty t t.program (renamedInterp (t.specPrivate.filter (· ∈ t.progPrivate)) J.pred) := by
     rw [← completion_stable t.program _ htR' hpR hinsR ΓR0 hcR _ J.fc ρ,
       ← hsemR ⟨renamedInterp (t.specPrivate.filter (· ∈ t.progPrivate)) J.pred, J.fc⟩ ρ]
     unfold rightSide
@@ -296,8 +299,9 @@ theorem external_refutes_spec (t : ExternalTask) (S : Specification) (hspec : t.
       (∀ a ∈ S, lStable a = true → sat J a.formula ρ) ∧
       (∀ a ∈ rightSide t ΓR, a.role = .assumption → sat J a.formula ρ) ∧
       (∀ a ∈ S, lFwdPrem a = true → sat J a.formula ρ) ∧
-      ¬ Stable t.program t.userGuide.inputs (restrictTo (ext t.program.preds t.userGuide.inputs)
-        (renamedInterp (t.specPrivate.filter (· ∈ t.progPrivate)) J.pred)) J.fc := by
+      ¬ (Stable t.program t.userGuide.inputs (restrictTo (ext t.program.preds t.userGuide.inputs)
+        (renamedInterp (t.specPrivate.filter (· ∈ t.progPrivate)) J.pred)) J.fc ∧
+        OutputsEmpty t t.program (renamedInterp (t.specPrivate.filter (· ∈ t.progPrivate)) J.pred)) := by
     rw [hF]
     simp only [List.forall_mem_cons, List.not_mem_nil, false_imp_iff, implies_true, and_true, true_and]
     rw [hstable]
@@ -324,8 +328,9 @@ theorem external_refutes_spec (t : ExternalTask) (S : Specification) (hspec : t.
       (∀ a ∈ t.userGuide.formulas, a.role = .assumption → sat J a.formula ρ) ∧
       (∀ a ∈ S, lStable a = true → sat J a.formula ρ) ∧
       (∀ a ∈ rightSide t ΓR, a.role = .assumption → sat J a.formula ρ) ∧
-      Stable t.program t.userGuide.inputs (restrictTo (ext t.program.preds t.userGuide.inputs)
+      (Stable t.program t.userGuide.inputs (restrictTo (ext t.program.preds t.userGuide.inputs)
         (renamedInterp (t.specPrivate.filter (· ∈ t.progPrivate)) J.pred)) J.fc ∧
+        OutputsEmpty t t.program (renamedInterp (t.specPrivate.filter (· ∈ t.progPrivate)) J.pred)) ∧
       ∃ a ∈ S, lBwdConc a = true ∧ ¬ sat J a.formula ρ := by
     rw [hB]
     simp only [List.forall_mem_cons, List.not_mem_nil, false_imp_iff, implies_true, and_true, true_and]
